@@ -515,11 +515,13 @@ fn run_elem<T: Cell>(case: &Value, track_drops: bool) -> Res {
 thread_local! {
     static ZST_MADE: std::cell::Cell<i64> = std::cell::Cell::new(0);
     static ZST_DROPPED: std::cell::Cell<i64> = std::cell::Cell::new(0);
+    /// panic in the k-th destructor run from now (0 = the next one)
+    static ZST_PANIC_AT: std::cell::Cell<Option<usize>> = std::cell::Cell::new(None);
 }
 
 pub struct Zst;
 impl Zst {
-    fn make() -> Zst {
+    pub fn make() -> Zst {
         ZST_MADE.with(|c| c.set(c.get() + 1));
         Zst
     }
@@ -527,10 +529,67 @@ impl Zst {
 impl Drop for Zst {
     fn drop(&mut self) {
         ZST_DROPPED.with(|c| c.set(c.get() + 1));
+        let fire = ZST_PANIC_AT.with(|c| match c.get() {
+            Some(0) => {
+                c.set(None);
+                true
+            }
+            Some(k) => {
+                c.set(Some(k - 1));
+                false
+            }
+            None => false,
+        });
+        if fire && !std::thread::panicking() {
+            panic!("injected destructor panic (zero-sized cell)");
+        }
     }
 }
-fn zst_live() -> i64 {
+pub fn zst_reset() {
+    ZST_MADE.with(|x| x.set(0));
+    ZST_DROPPED.with(|x| x.set(0));
+    ZST_PANIC_AT.with(|x| x.set(None));
+}
+pub fn zst_set_drop_panic(k: Option<usize>) {
+    ZST_PANIC_AT.with(|x| x.set(k));
+}
+pub fn zst_array(c: usize, r: usize) -> TooDee<Zst> {
+    TooDee::from_vec(c, r, (0..c * r).map(|_| Zst::make()).collect())
+}
+pub fn zst_live() -> i64 {
     ZST_MADE.with(|c| c.get()) - ZST_DROPPED.with(|c| c.get())
+}
+
+/// What C11 / C12 demand of an array of zero-sized cells after a caught panic or a leak: the shape
+/// invariant, no cell held by the array already destroyed (cells may be leaked), still usable, and
+/// never more destructor runs than constructions - then or when the array is dropped.
+pub fn zst_post_check(variant: &str, mut t: TooDee<Zst>) -> Res {
+    zst_set_drop_panic(None);
+    shape_invariant(variant, &t)?;
+    let held = t.data().len() as i64;
+    if zst_live() < held {
+        return Err(Fail::new(format!("{}: zero-sized cells held by the array are live", variant), format!("at least {} live cells", held), format!("{} live cells", zst_live())));
+    }
+    let cols = if t.num_cols() == 0 { 2 } else { t.num_cols() };
+    let rows_before = t.num_rows();
+    let r = catch(|| {
+        let row: Vec<Zst> = (0..cols).map(|_| Zst::make()).collect();
+        t.push_row(row);
+    });
+    if r.is_err() {
+        return Err(Fail::new(format!("{}: push_row afterwards", variant), "no panic", "panic"));
+    }
+    shape_invariant(&format!("{}, then push_row", variant), &t)?;
+    check_eq(&format!("{}: rows after push_row", variant), &(rows_before + 1), &t.num_rows())?;
+    let held = t.data().len() as i64;
+    if zst_live() < held {
+        return Err(Fail::new(format!("{}: zero-sized cells held after push_row are live", variant), format!("at least {} live cells", held), format!("{} live cells", zst_live())));
+    }
+    drop(t);
+    if zst_live() < 0 {
+        return Err(Fail::new(format!("{}: dropping the array", variant), "no cell destroyed twice", format!("{} more destructor runs than constructions", -zst_live())));
+    }
+    Ok(())
 }
 
 fn zst_drain<D: DoubleEndedIterator<Item = Zst> + ExactSizeIterator>(mut d: D, plan: &Plan) -> Vec<String> {
@@ -595,10 +654,9 @@ fn zst_apply(t: &mut TooDee<Zst>, op: &Op) -> Vec<String> {
 fn run_zst(case: &Value) -> Res {
     let (c, r) = (ju(&case["shape"][0]), ju(&case["shape"][1]));
     let ops: Vec<Op> = case["ops"].as_array().unwrap().iter().map(Op::from_json).collect();
-    ZST_MADE.with(|x| x.set(0));
-    ZST_DROPPED.with(|x| x.set(0));
+    zst_reset();
     let mut model = start_grid(c, r);
-    let mut t: TooDee<Zst> = TooDee::from_vec(c, r, (0..c * r).map(|_| Zst::make()).collect());
+    let mut t: TooDee<Zst> = zst_array(c, r);
     let mut any_panic = false;
     for (n, op) in ops.iter().enumerate() {
         let name = format!("zero-sized cells: op {} {}", n, op.to_json());
